@@ -511,7 +511,7 @@ class _DataCompiler:
             )
         data_list = []
         if preceding_data:
-            data_list += [(preceding_data, file_version)]
+            data_list += [(preceding_data, file_version + ":0")]
         if include_files:
             include_files = [
                 self._resolve_relative_include(
@@ -523,7 +523,7 @@ class _DataCompiler:
                 parent_files + [file_name], include_files
             )
         if following_data:
-            data_list += [(following_data, file_version)]
+            data_list += [(following_data, file_version + ":1")]
         return data_list
 
     @staticmethod
